@@ -8,7 +8,7 @@ def block(name, recv, sev, callee, callee_assert, const_sev=True, fd="entry"):
     ent = "s" if recv == "s" else "specDefaultEntry()"
     req = "s != nil && specFmtInv(s) && 0 <= s.extraFrames && s.extraFrames <= 1048576" if recv == "s" else "specDefaultEntry() != nil && specFmtInv(specDefaultEntry()) && 0 <= specDefaultEntry().extraFrames && specDefaultEntry().extraFrames <= 1048576"
     lv = f"{ent}.level"
-    b = [f"//@ func {name}", "//@   props C01 C02 C12 C13 C14", f"//@   requires {req}", "//@   assigns everything", "//@   keeps PrintCtx.off, PrintCtx.lvl"]
+    b = [f"//@ func {name}", "//@   props C01 C02 C12 C13 C14", f"//@   requires {req}", "//@   assigns everything", "//@   keeps PrintCtx.off, PrintCtx.lvl, PrintCtx.prefix, PrintCtx.inGroupedMode, PrintCtx.noQuoted, PrintCtx.dedupeAttrs"]
     term = f"specAdmits({lv}, {sev}) && specInterrupts() && isnil({ent}.handlerOpt)"
     if const_sev:
         if sev == "PanicLevel":
